@@ -32,7 +32,7 @@ def run(ctx):
         if facts.fn(DS + '::parse') is None:
             ctx.missing('C18.drivers', DS + '::parse')
             return
-        e4 = E4(facts, keep_instates=True)
+        e4 = E4(facts, keep_instates=True, budget_s=300)
         e4.summarize(DS + '::parse')
         for what, n in sorted(e4.unmodelled().items()):
             ctx.violation('C18.walkers', '<engine>', 'unmodelled:' + str(what)[:80], 'unmodelled construct in the validator scope: %s' % what, kind='undecided', config=cfg)
